@@ -710,7 +710,8 @@ class GriffeLoader:
         return [
             (imported_member, wildcard_obj.alias_lineno, wildcard_obj.alias_endlineno)
             for imported_member in module.members.values()
-            if imported_member.is_wildcard_exposed
+            # Unexpanded wildcard placeholders (members named `path/to/module/*`) are not names of the module.
+            if imported_member.is_wildcard_exposed and not (imported_member.is_alias and imported_member.wildcard)
         ]
 
 
